@@ -154,7 +154,8 @@ impl ProjectStatistics {
         }
 
         let mut by_language: Vec<LanguageStats> = lang_map.into_values().collect();
-        by_language.sort_by(|a, b| b.code.cmp(&a.code));
+        // Ties are broken by name: hash-map order would differ from run to run
+        by_language.sort_by(|a, b| b.code.cmp(&a.code).then_with(|| a.language.cmp(&b.language)));
 
         self.by_language = Some(by_language);
         self
@@ -211,7 +212,9 @@ impl ProjectStatistics {
         }
 
         let mut by_directory: Vec<DirectoryStats> = dir_map.into_values().collect();
-        by_directory.sort_by(|a, b| b.code.cmp(&a.code));
+        // Ties are broken by name: hash-map order would differ from run to run
+        by_directory
+            .sort_by(|a, b| b.code.cmp(&a.code).then_with(|| a.directory.cmp(&b.directory)));
 
         self.by_directory = Some(by_directory);
         self
